@@ -6,6 +6,26 @@ func init() {
 	const txs = "internal/storage/ledgerstore/transactions.go"
 	const bal = "internal/storage/ledgerstore/balances.go"
 	addMutants(
+		Mutant{Property: "C04", Name: "aggregated-balances-latest-by-effective-date", File: bal,
+			Old: "Order(\"account_address\", \"asset\", \"moves.seq desc\").", New: "Order(\"account_address\", \"asset\", \"moves.effective_date desc\", \"moves.seq desc\").", Expect: "R04d:(*internal/storage/ledgerstore.Store).GetAggregatedBalances$2:query:latest-move"},
+		Mutant{Property: "C04", Name: "aggregated-balances-oldest-move", File: bal,
+			Old: "Order(\"account_address\", \"asset\", \"moves.seq desc\").", New: "Order(\"account_address\", \"asset\", \"moves.seq\").", Expect: "R04d:"},
+		Mutant{Property: "C04", Name: "aggregated-balances-sums-effective-volumes", File: bal,
+			Old: "sum((moves.post_commit_volumes).inputs), sum((moves.post_commit_volumes).outputs)", New: "sum((moves.post_commit_effective_volumes).inputs), sum((moves.post_commit_effective_volumes).outputs)", Expect: "R04d:"},
+		Mutant{Property: "C04", Name: "aggregated-balances-order-expr", File: bal,
+			Old: "Order(\"account_address\", \"asset\", \"moves.seq desc\").", New: "OrderExpr(\"moves.account_address, moves.asset, moves.seq desc\").", Expect: "none", Benign: true},
+		Mutant{Property: "C04", Name: "balance-filter-latest-by-effective-date", File: acc,
+			Old: "\t\t\t\twhere account_address = accounts.address and ledger = ?\n\t\t\t\torder by seq desc", New: "\t\t\t\twhere account_address = accounts.address and ledger = ?\n\t\t\t\torder by effective_date desc, seq desc", Expect: "R04d:(*internal/storage/ledgerstore.Store).accountQueryContext$1:fragment"},
+		Mutant{Property: "C04", Name: "sql-account-volumes-latest-by-effective-date", File: migrationSQL,
+			Old: "                     and s.ledger = _ledger\n                   order by seq desc\n                   limit 1\n                   ) m on true)\nselect moves.asset, moves.post_commit_volumes", New: "                     and s.ledger = _ledger\n                   order by effective_date desc, seq desc\n                   limit 1\n                   ) m on true)\nselect moves.asset, moves.post_commit_volumes", Expect: "R04d:sql:get_all_account_volumes"},
+		Mutant{Property: "C04", Name: "sql-effective-volumes-latest-by-seq", File: migrationSQL,
+			Old: "                   order by effective_date desc, seq desc\n                   limit 1\n                   ) m on true)\nselect moves.asset, moves.post_commit_effective_volumes", New: "                   order by seq desc\n                   limit 1\n                   ) m on true)\nselect moves.asset, moves.post_commit_effective_volumes", Expect: "R04d:sql:get_all_account_effective_volumes"},
+		Mutant{Property: "C04", Name: "sql-writer-continues-effective-total-by-seq", File: migrationSQL,
+			Old: "              and effective_date <= _effective_date\n            order by effective_date desc, seq desc\n            limit 1;", New: "              and effective_date <= _effective_date\n            order by seq desc\n            limit 1;", Expect: "R04d:writer"},
+		Mutant{Property: "C04", Name: "sql-balance-qualified-order", File: migrationSQL,
+			Old: "  and s.ledger = _ledger\norder by seq desc\nlimit 1\n$$;", New: "  and s.ledger = _ledger\norder by s.seq desc\nlimit 1\n$$;", Expect: "none", Benign: true},
+		Mutant{Property: "C04", Name: "dead-sql-aggregate-becomes-used", File: bal,
+			Old: "query.TableExpr(\"get_account_balance(?, ?, ?) as balance\", store.name, address, asset)", New: "query.TableExpr(\"get_account_balance(?, ?, ?) as balance, aggregate_ledger_volumes(?) as unused\", store.name, address, asset, store.name)", Expect: "R04d:sql:aggregate_ledger_volumes"},
 		Mutant{Property: "C04", Name: "logs-listing-unscoped", File: logs,
 			Old: "\t\t\tTable(LogTableName).\n\t\t\tWhere(\"ledger = ?\", store.name)\n", New: "\t\t\tTable(LogTableName)\n", Expect: "R04a:(*internal/storage/ledgerstore.Store).logsQueryBuilder$1:from-logs"},
 		Mutant{Property: "C04", Name: "account-query-unscoped", File: acc,
